@@ -21,17 +21,26 @@ import (
 // ---------------------------------------------------------------------------
 
 type DriverFn struct {
-	Fn     *ssa.Function
-	Node   string     // parser type of the node parameter ("" if none)
-	Traces [][]string // event sequences of the success paths
+	Fn         *ssa.Function
+	Node       string     // parser type of the node parameter ("" if none)
+	Traces     [][]string // event sequences of the success paths
 	CondTraces [][]string // the same paths with "?param=true/false" markers where a bool parameter decided a branch
-	Trunc  bool
+	Trunc      bool
 }
 
 type DriverFacts struct {
-	W   *World
-	Fns []*DriverFn
-	rec map[*ssa.Function]string // recursion primitives: fn -> eval/stmt/block
+	W     *World
+	Fns   []*DriverFn
+	rec   map[*ssa.Function]string // recursion primitives: fn -> eval/stmt/block
+	calls []helperCall
+	depth int
+	memo  map[*ssa.Function][][]string
+}
+
+type helperCall struct {
+	callee *ssa.Function
+	args   []string // accessor path of each argument in the caller
+	flags  []string // {flag} rendering of bool arguments
 }
 
 func BuildDriverFacts(w *World) (*DriverFacts, error) {
@@ -192,6 +201,39 @@ func (df *DriverFacts) traces(fn *ssa.Function, iface *types.Interface) ([][]str
 						}
 					}
 					events[b] = append(events[b], k+"("+accessorPath(c.Call.Args[1], node, 0)+")"+flag)
+					continue
+				}
+				// call of another function of the driver that is neither a recursion primitive nor
+				// this function: its events are spliced in (helper extracted from a handler)
+				if callee != fn && callee.Pkg == fn.Pkg && callee.Signature.Recv() != nil && len(callee.Blocks) > 0 {
+					if _, isRec := df.rec[callee]; !isRec && df.depth < 2 && df.rec[fn] == "" {
+						id := len(df.calls)
+						ci := helperCall{callee: callee}
+						for i, a := range c.Call.Args {
+							if i == 0 {
+								ci.args = append(ci.args, "")
+								ci.flags = append(ci.flags, "")
+								continue
+							}
+							ci.args = append(ci.args, accessorPath(a, node, 0))
+							fl := ""
+							if isBool(a.Type()) {
+								switch kk := a.(type) {
+								case *ssa.Const:
+									if kk.Value != nil && !constant.BoolVal(kk.Value) {
+										fl = "{unused}"
+									}
+								case *ssa.Parameter:
+									fl = "{" + kk.Name() + "}"
+								default:
+									fl = "{" + kk.Name() + "}"
+								}
+							}
+							ci.flags = append(ci.flags, fl)
+						}
+						df.calls = append(df.calls, ci)
+						events[b] = append(events[b], fmt.Sprintf("call#%d", id))
+					}
 				}
 				continue
 			}
@@ -384,8 +426,84 @@ func (df *DriverFacts) traces(fn *ssa.Function, iface *types.Interface) ([][]str
 			uniqT = append(uniqT, t)
 		}
 	}
-	sort.Slice(uniqT, func(i, j int) bool { return strings.Join(uniqT[i], " ") < strings.Join(uniqT[j], " ") })
-	return uniqT, trunc
+	// splice in the events of helper functions
+	var expanded [][]string
+	for _, t := range uniqT {
+		alts := [][]string{{}}
+		for _, e := range t {
+			if !strings.HasPrefix(e, "call#") {
+				for i := range alts {
+					alts[i] = append(alts[i], e)
+				}
+				continue
+			}
+			var id int
+			fmt.Sscanf(e, "call#%d", &id)
+			ci := df.calls[id]
+			sub := df.helperTraces(ci.callee, iface)
+			var next [][]string
+			for _, a := range alts {
+				for _, st := range sub {
+					n := append([]string{}, a...)
+					for _, se := range st {
+						// rename the callee's parameters to what the caller passed
+						for pi, p := range ci.callee.Params {
+							if pi < len(ci.args) && ci.args[pi] != "" {
+								se = strings.ReplaceAll(se, "param:"+p.Name(), ci.args[pi])
+								if isBool(p.Type()) {
+									se = strings.ReplaceAll(se, "{"+p.Name()+"}", ci.flags[pi])
+								}
+							}
+						}
+						// the callee's own node parameter is what the caller passed second
+						if len(ci.args) > 1 && ci.args[1] != "" {
+							se = strings.ReplaceAll(se, "(self)", "("+ci.args[1]+")")
+							se = strings.ReplaceAll(se, "(self[", "("+ci.args[1]+"[")
+							se = strings.ReplaceAll(se, "(self.", "("+ci.args[1]+".")
+						}
+						n = append(n, se)
+					}
+					next = append(next, n)
+				}
+				if len(next) > 400 {
+					trunc = true
+					break
+				}
+			}
+			alts = next
+		}
+		expanded = append(expanded, alts...)
+	}
+	seen2 := map[string]bool{}
+	var out2 [][]string
+	for _, t := range expanded {
+		k := strings.Join(t, " ")
+		if !seen2[k] {
+			seen2[k] = true
+			out2 = append(out2, t)
+		}
+	}
+	sort.Slice(out2, func(i, j int) bool { return strings.Join(out2[i], " ") < strings.Join(out2[j], " ") })
+	return out2, trunc
+}
+
+// helperTraces: event sequences of a helper function (memoised, bounded depth).
+func (df *DriverFacts) helperTraces(fn *ssa.Function, iface *types.Interface) [][]string {
+	if df.memo == nil {
+		df.memo = map[*ssa.Function][][]string{}
+	}
+	if t, ok := df.memo[fn]; ok {
+		return t
+	}
+	df.memo[fn] = [][]string{{}}
+	df.depth++
+	t, _ := df.traces(fn, iface)
+	df.depth--
+	if len(t) == 0 {
+		t = [][]string{{}}
+	}
+	df.memo[fn] = t
+	return t
 }
 
 // stripMarkers removes the "?param=…" markers and de-duplicates.
@@ -445,18 +563,18 @@ func errorBranchReturn(ret *ssa.Return) bool {
 // Oracle: Go's left-to-right operand order, the README's eager-condition caveat, the
 // bracket contract of the Converter interface.
 var protoSpec = map[string]string{
-	"Operation":      `^eval\(Left\) eval\(Right\) conv\(\$callout\)$`,
-	"UnaryOperation": `^eval\(Expression\) conv\(UnaryOperation\)$`,
-	"Print":          `^(eval\(Expressions\[\*\]\) )*conv\(Print\)$`,
-	"Panic":          `^eval\(Expression\) conv\(Panic\)$`,
-	"Write":          `^eval\(Path\) eval\(Data\)( eval\(Append\))? conv\(WriteFile\)$`,
-	"If":             `^eval\(IfBranch\.Condition\) (eval\(ElseIfBranches\[\*\]\.Condition\) )*conv\(IfStart\) block\(IfBranch\) (conv\(ElseIfStart\) block\(ElseIfBranches\[\*\]\) conv\(ElseIfEnd\) )*(conv\(ElseStart\) block\(Else\) conv\(ElseEnd\) )?conv\(IfEnd\)$`,
-	"For":            `^(stmt\(Init\) )?conv\(ForStart\) (conv\(ForIncrementStart\) stmt\(Increment\) conv\(ForIncrementEnd\) )?eval\(Condition\) conv\(ForCondition\) block\(self\) conv\(ForEnd\)$`,
+	"Operation":                        `^eval\(Left\) eval\(Right\) conv\(\$callout\)$`,
+	"UnaryOperation":                   `^eval\(Expression\) conv\(UnaryOperation\)$`,
+	"Print":                            `^(eval\(Expressions\[\*\]\) )*conv\(Print\)$`,
+	"Panic":                            `^eval\(Expression\) conv\(Panic\)$`,
+	"Write":                            `^eval\(Path\) eval\(Data\)( eval\(Append\))? conv\(WriteFile\)$`,
+	"If":                               `^eval\(IfBranch\.Condition\) (eval\(ElseIfBranches\[\*\]\.Condition\) )*conv\(IfStart\) block\(IfBranch\) (conv\(ElseIfStart\) block\(ElseIfBranches\[\*\]\) conv\(ElseIfEnd\) )*(conv\(ElseStart\) block\(Else\) conv\(ElseEnd\) )?conv\(IfEnd\)$`,
+	"For":                              `^(stmt\(Init\) )?conv\(ForStart\) (conv\(ForIncrementStart\) stmt\(Increment\) conv\(ForIncrementEnd\) )?eval\(Condition\) conv\(ForCondition\) block\(self\) conv\(ForEnd\)$`,
 	"VariableDefinition":               `^(eval\(Values\[\*\]\) conv\(VarDefinition\) ?)*$`,
 	"VariableAssignment":               `^(eval\(Values\[\*\]\) (conv\(Var(Definition|Assignment)\) ?)?)*(conv\(Var(Definition|Assignment)\) ?)*$`,
 	"VariableDefinitionCallAssignment": `^eval\(Call\)( conv\(VarDefinition\))*$`,
 	"VariableAssignmentCallAssignment": `^eval\(Call\)( conv\(Var(Definition|Assignment)\))*$`,
-	"SliceAssignment":                  `^eval\(Index\) eval\(Value\) conv\(SliceAssignment\)$`,
+	"SliceAssignment":                  `^eval\(Index\) eval\(Value\)( conv\(StringToString\))? conv\(SliceAssignment\)$`, // the default element text is a pure conversion
 	"VariableEvaluation":               `^conv\(VarEvaluation\)$`,
 	"SliceEvaluation":                  `^eval\(Value\) eval\(Index\) conv\(SliceEvaluation\)$`,
 	"StringSubscript":                  `^eval\(StartIndex\) (eval\(EndIndex\) )?eval\(Value\) conv\(StringSubscript\)$`,
